@@ -158,6 +158,13 @@ func c07World(profs []*c07Profile, up dnsserver.Handler, cacheOn bool) (w *world
 			switch {
 			case strings.HasPrefix(req.Host, "reqblock"):
 				return &filter.ResultBlocked{List: "list_req", Rule: filter.RuleText("||" + req.Host + "^")}, nil
+			case strings.HasPrefix(req.Host, "cnamerw"):
+				// A CNAME rewrite, as rule lists produce it: the request is
+				// resolved under another name.
+				modReq := dnsmsg.Clone(req.DNS)
+				modReq.Question[0].Name = "target-of-" + dns.Fqdn(req.Host)
+
+				return &filter.ResultModifiedRequest{Msg: modReq, List: "list_cn", Rule: "cname-rule"}, nil
 			case strings.HasPrefix(req.Host, "rewrite"):
 				resp, rerr := req.Messages.NewBlockedRespIP(req.DNS, netip.MustParseAddr("192.0.2.55"))
 				if rerr != nil {
@@ -308,7 +315,9 @@ func runC07(s *kernel.Sim, cfg string) {
 			if t.Chance(1, 6, "debug-query") {
 				r.qclass = dns.ClassCHAOS
 			}
-			switch t.Choose(6, "name-kind") {
+			switch t.Choose(7, "name-kind") {
+			case 6:
+				r.name = fmt.Sprintf("cnamerw-%d.example.", t.Choose(3, "shared"))
 			case 0:
 				r.name = fmt.Sprintf("reqblock-%d.example.", t.Choose(3, "shared"))
 			case 1:
